@@ -97,6 +97,10 @@ func (w *ecKWSupport) deriveSender1Pu(alg string, apu, apv, tag []byte, ephemera
 		return nil, errors.New("deriveSender1Pu: recipient, sender and ephemeral key are not on the same curve")
 	}
 
+	if err := validECPublicKey(ephemeralPrivEC.Curve, recPubKeyEC); err != nil {
+		return nil, fmt.Errorf("deriveSender1Pu: recipient key: %w", err)
+	}
+
 	ze := deriveECDH(ephemeralPrivEC, recPubKeyEC, keySize)
 	zs := deriveECDH(senderPrivKeyEC, recPubKeyEC, keySize)
 
@@ -124,11 +128,29 @@ func (w *ecKWSupport) deriveRecipient1Pu(alg string, apu, apv, tag []byte, ephem
 		return nil, errors.New("deriveRecipient1Pu: recipient, sender and ephemeral key are not on the same curve")
 	}
 
+	if err := validECPublicKey(recPrivKeyEC.Curve, ephemeralPubEC); err != nil {
+		return nil, fmt.Errorf("deriveRecipient1Pu: ephemeral key: %w", err)
+	}
+
+	if err := validECPublicKey(recPrivKeyEC.Curve, senderPubKeyEC); err != nil {
+		return nil, fmt.Errorf("deriveRecipient1Pu: sender key: %w", err)
+	}
+
 	// DeriveECDHES checks if keys are on the same curve
 	ze := deriveECDH(recPrivKeyEC, ephemeralPubEC, keySize)
 	zs := deriveECDH(recPrivKeyEC, senderPubKeyEC, keySize)
 
 	return derive1Pu(alg, ze, zs, apu, apv, tag, keySize), nil
+}
+
+// validECPublicKey rejects a public key that is not a point of the private key's curve: deriveECDH below and go-jose's
+// DeriveECDHES panic on such a key.
+func validECPublicKey(curve elliptic.Curve, pub *ecdsa.PublicKey) error {
+	if curve == nil || pub == nil || pub.X == nil || pub.Y == nil || !curve.IsOnCurve(pub.X, pub.Y) {
+		return errors.New("invalid EC public key: not a point of the curve")
+	}
+
+	return nil
 }
 
 const byteSize = 8
